@@ -181,7 +181,7 @@ def main(argv=None):
     ap.add_argument("--tier", default=os.environ.get("VERIF_TIER", "quick"))
     ap.add_argument("--only", default="")
     ap.add_argument("--replay", default="")
-    ap.add_argument("--jobs", type=int, default=int(os.environ.get("VF_JOBS", "8")))
+    ap.add_argument("--jobs", type=int, default=int(os.environ.get("VF_JOBS", "14")))
     ap.add_argument("--no-evidence", action="store_true")
     a = ap.parse_args(argv)
     pid = a.pid.upper()
